@@ -1,11 +1,161 @@
-/- Hand-written executable model (tie B): Gen.  Core Lean only — no Mathlib import in this file. -/
+/- Hand-written executable model (tie B): Gen — bookkeeping of the field generators
+   (RandMeth / IncomprRandMeth / Fourier in field/generator.py) and of SRF.__call__ (field/srf.py):
+   private model copy, seed, mode number, which settings the amplitude / wave-vector arrays were
+   derived under, position in the RNG stream.  Values are abstract identifiers.  Core Lean only. -/
 import GSV.Proto
-open Lean GSV GSV.Proto GSV.Transc
+open Lean GSV GSV.Proto
 namespace GSV.Model.Gen
 
-/-- line-protocol operations of this model; `none` = not one of mine -/
+/-- a model value as `CovModel.__eq__` sees it, plus whether its nugget is positive -/
+structure MVal where
+  id : Nat
+  nug : Bool
+deriving DecidableEq, Repr, Inhabited
+
+/-- seed argument of `update` / `reset_seed` / `SRF.__call__`: `keep` = `np.nan` -/
+inductive SeedArg where
+  | keep
+  | set (s : Option Nat)        -- `none` = Python `None` (random seed)
+deriving DecidableEq, Repr, Inhabited
+
+/-- what the derived arrays (amplitudes, wave vectors / spectrum factor) depend on.
+    For a `None` seed the arrays depend on the fresh entropy of that reseed (`epoch`). -/
+structure Derived where
+  model : Nat
+  seed : Option Nat
+  modeNo : Nat
+  epoch : Nat          -- 0 for integer seeds; the reseed counter for `None` seeds
+deriving DecidableEq, Repr, Inhabited
+
+structure State where
+  srfModel : MVal      -- the field object's model (mutable by the user)
+  genModel : MVal      -- the generator's private copy
+  seed : Option Nat
+  modeNo : Nat
+  derived : Derived
+  epoch : Nat          -- number of reseeds so far
+  draws : Nat          -- normal variates drawn for nugget noise since the last reseed
+deriving DecidableEq, Repr, Inhabited
+
+inductive Op where
+  | srfCall (seed : SeedArg) (npts : Nat)     -- SRF.__call__(pos, seed)
+  | modelChange (m : MVal)                    -- in-place change of the field's model
+  | genSetSeed (s : Option Nat)               -- generator.seed = s
+  | genSetModeNo (n : Nat)                    -- generator.mode_no = n
+  | genResetSeed (seed : SeedArg)             -- generator.reset_seed(seed)
+  | genCall (npts : Nat) (addNugget : Bool)   -- generator(pos, add_nugget)
+deriving DecidableEq, Repr, Inhabited
+
+/-- output of a generating call: the token of the summed modes and, if noise was drawn,
+    (seed, epoch-if-random, first draw index, count) of the nugget noise -/
+structure Out where
+  field : Derived
+  noise : Option (Option Nat × Nat × Nat × Nat)
+deriving DecidableEq, Repr, Inhabited
+
+def derive (m : MVal) (seed : Option Nat) (modeNo epoch : Nat) : Derived :=
+  { model := m.id, seed, modeNo, epoch := match seed with | some _ => 0 | none => epoch }
+
+/-- `reset_seed(seed)`: new RNG, arrays recomputed, stream position back to 0 -/
+def resetSeed (s : State) (a : SeedArg) : State :=
+  let seed := match a with | .keep => s.seed | .set x => x
+  let ep := s.epoch + 1
+  { s with seed, epoch := ep, draws := 0, derived := derive s.genModel seed s.modeNo ep }
+
+/-- the seed property setter: reseeds only for a different *value* -/
+def setSeed (s : State) (x : Option Nat) : State :=
+  if x ≠ s.seed then resetSeed s (.set x) else s
+
+/-- `update(model, seed)` -/
+def update (s : State) (m : MVal) (a : SeedArg) : State :=
+  if s.genModel ≠ m then resetSeed { s with genModel := m } a
+  else match a with
+    | .keep => s
+    | .set x => setSeed s x
+
+def genCall (s : State) (npts : Nat) (addNugget : Bool) : State × Out :=
+  if addNugget ∧ s.genModel.nug then
+    ({ s with draws := s.draws + npts },
+     { field := s.derived, noise := some (s.seed, (match s.seed with | some _ => 0 | none => s.epoch), s.draws, npts) })
+  else (s, { field := s.derived, noise := none })
+
+def step (s : State) : Op → State × Option Out
+  | .srfCall a n =>
+    let s := update s s.srfModel a
+    let (s, o) := genCall s n true
+    (s, some o)
+  | .modelChange m => ({ s with srfModel := m }, none)
+  | .genSetSeed x => (setSeed s x, none)
+  | .genSetModeNo n => (if n ≠ s.modeNo then resetSeed { s with modeNo := n } .keep else s, none)
+  | .genResetSeed a => (resetSeed s a, none)
+  | .genCall n b => let (s, o) := genCall s n b; (s, some o)
+
+/-- a freshly constructed `SRF(model, seed=…, mode_no=…)` -/
+def init (m : MVal) (seed : Option Nat) (modeNo : Nat) : State :=
+  { srfModel := m, genModel := m, seed, modeNo, derived := derive m seed modeNo 1, epoch := 1, draws := 0 }
+
+def run (s : State) : List Op → State × List (Option Out)
+  | [] => (s, [])
+  | op :: ops =>
+    let (s', o) := step s op
+    let (s'', os) := run s' ops
+    (s'', o :: os)
+
+/-! ### driver -/
+
+def optNat (j : Json) (k : String) : Option Nat :=
+  match j.getObjVal? k with
+  | .ok (Json.num n) => some n.mantissa.toNat
+  | _ => none
+
+def parseSeedArg (j : Json) : SeedArg :=
+  match j.getObjVal? "seed" with
+  | .ok (Json.str "keep") => .keep
+  | .ok (Json.num n) => .set (some n.mantissa.toNat)
+  | _ => .set none
+
+def parseOp (j : Json) : Except String Op := do
+  let k ← getStr j "k"
+  match k with
+  | "srf_call" => return .srfCall (parseSeedArg j) (← getNat j "n")
+  | "model" => return .modelChange { id := ← getNat j "id", nug := ← getBool j "nug" }
+  | "gen_seed" => return .genSetSeed (optNat j "s")
+  | "gen_mode_no" => return .genSetModeNo (← getNat j "n")
+  | "gen_reset" => return .genResetSeed (parseSeedArg j)
+  | "gen_call" => return .genCall (← getNat j "n") (← getBool j "nugget")
+  | _ => throw s!"unknown gen op {k}"
+
+def natJ (n : Nat) : Json := Json.num (JsonNumber.fromNat n)
+def optJ : Option Nat → Json | some n => natJ n | none => Json.null
+
+def derivedJson (d : Derived) : Json := Json.arr #[natJ d.model, optJ d.seed, natJ d.modeNo, natJ d.epoch]
+
+def outJson (o : Out) : Json :=
+  Json.mkObj [("field", derivedJson o.field),
+    ("noise", match o.noise with
+      | none => Json.null
+      | some (s, e, a, n) => Json.arr #[optJ s, natJ e, natJ a, natJ n])]
+
 def ops (op : String) (j : Json) : Option (Except String Json) :=
   match op with
+  | "gen_history" => some (do
+      let m : MVal := { id := ← getNat j "model", nug := ← getBool j "nug" }
+      let seed := optNat j "seed0"
+      let mn ← getNat j "mode_no"
+      let arr ← (← j.getObjVal? "ops").getArr?
+      let opl ← arr.toList.mapM parseOp
+      let mut s := init m seed mn
+      let mut out : Array Json := #[]
+      for o in opl do
+        let (s', r) := step s o
+        match r with
+        | some r =>
+          -- what a freshly built object with the current settings would derive its arrays from
+          let fresh := derive s'.srfModel s'.seed s'.modeNo s'.epoch
+          out := out.push (Json.mkObj [("out", outJson r), ("fresh", derivedJson fresh)])
+        | none => pure ()
+        s := s'
+      return Json.arr out)
   | _ => none
 
 end GSV.Model.Gen
